@@ -19,7 +19,7 @@ var c12 struct {
 //
 //verif:envstep c12Interfere
 func c12Interfere() {
-	if c12.l == nil || c12.envLeft == 0 {
+	if c12.l == nil || c12.envLeft == 0 || !vBool("env.acts") {
 		return
 	}
 	c12.envLeft--
@@ -46,7 +46,7 @@ var c12Kinds = [5]RecursionWorkKind{RecursionWorkOutboundQuery, RecursionWorkInt
 // the first rejected dimension; shadow mode only counts.
 //
 //verif:entry tier=quick,thorough
-//verif:bound all policies (mode off/shadow/enforce, every 32-bit limit), all five aggregate dimensions, arbitrary counter <= limit, arbitrary previous latch; up to 2 (quick) / 3 (thorough) interference steps by other debitors between this caller's atomic operations
+//verif:bound all policies (mode off/shadow/enforce, every 32-bit limit), all five aggregate dimensions, arbitrary counter <= limit, arbitrary previous latch; at each of this caller's atomic operations other debitors may or may not act, up to 2 (quick) / 3 (thorough) times in total
 func VerifC12_Debit() {
 	mode := RecursionWorkMode(vChoice("mode", 3))
 	p := RecursionWorkPolicy{Mode: mode, MaxOutboundQueries: vU32("maxOutbound"), MaxInternalQueries: vU32("maxInternal"),
